@@ -171,9 +171,15 @@ def implies(a, b):
     return (not a) or bool(b)
 
 
+# (run-time evaluation only - the verifier never calls these.)  An open bound cannot be enumerated: the run-time checks then
+# look at a window of integers that covers every index / level / count the monitored code works with; a clause evaluated
+# this way is a sanity check of the contract against real executions, not part of any proof.
+_WINDOW = (-64, 512)
+
+
 def forall(lo, hi, f):
-    return all(f(i) for i in range(lo, hi))
+    return all(f(i) for i in range(_WINDOW[0] if lo is None else lo, _WINDOW[1] if hi is None else hi))
 
 
 def exists(lo, hi, f):
-    return any(f(i) for i in range(lo, hi))
+    return any(f(i) for i in range(_WINDOW[0] if lo is None else lo, _WINDOW[1] if hi is None else hi))
